@@ -277,6 +277,9 @@ class OrchImpl(Impl):
             o.increment_invocation_retries(self._id(op[1]))
         elif k == "hb":
             o.register_runner_heartbeats([op[1]], can_run_atomic_service=op[2])
+        elif k == "ask_active":
+            # the query as an operation of the history: asking must not change what is stored
+            list(o.get_active_runners())
         elif k == "adv":
             env.CLOCK.now = round(env.CLOCK.now + op[1], 6)
         elif k == "rec":
@@ -474,6 +477,8 @@ class OrchModel(Model):
         elif k == "retry":
             if op[1] in self.inv:
                 self.inv[op[1]]["retries"] += 1
+        elif k == "ask_active":
+            pass
         elif k == "hb":
             _, r, flag = op
             if r in self.hb:
@@ -608,10 +613,13 @@ _orch("orch/wait-graph/U1",
              "chain": [("reg", 2), ("reg", 1), ("reg", 0), ("wait", 2, (1,)), ("wait", 1, (0,)),
                        ("st", 0, "PENDING", "r1"), ("st", 0, "RUNNING", "r1")]})
 _orch("orch/runners/U1",
-      [("hb", "r1", False), ("hb", "r2", True), ("hb", "r3", False), ("adv", D - 3 * U), ("adv", U), ("rec", "r2", 5), ("rec", "r2", 7),
+      [("hb", "r1", False), ("hb", "r2", True), ("hb", "r3", False), ("ask_active",), ("adv", D - 3 * U), ("adv", U), ("rec", "r2", 5), ("rec", "r2", 7),
        ("reg", 1), ("st", 1, "PENDING", "r2"), ("st", 1, "RUNNING", "r2"), ("st", 0, "SUCCESS", "r1"), ("purge",)],
       3, 5, universe="U1", timed=True,
       seeds={"": [], "0-running": [("reg", 0), ("st", 0, "PENDING", "r1"), ("st", 0, "RUNNING", "r1")],
+             # r1 is stale, r2 fresh, and somebody has asked for the active runners in that state
+             "one-stale-asked": [("hb", "r1", False), ("rec", "r1", 5), ("hb", "r2", True), ("adv", D - 3 * U), ("hb", "r2", True),
+                                 ("ask_active",)],
              "0-running-hb": [("reg", 0), ("st", 0, "PENDING", "r1"), ("hb", "r1", False), ("st", 0, "RUNNING", "r1"), ("adv", D - 3 * U)]})
 _orch("orch/auto-purge/U1",
       [("adv", D - 3 * U), ("adv", U), ("apurge",), ("reg", 0), ("reg", 1), ("idx", 0), ("wait", 1, (0,)), ("wait", 0, (1,)),
